@@ -196,11 +196,12 @@ def c_op(op):
 
 
 def c_icase(case, chart_name, prop_chart_names):
-    return '(mkICase %s\n %s\n %s\n %s\n %s\n %s\n %s\n %s\n %s)' % (
+    return '(mkICase %s\n %s\n %s\n %s\n %s\n %s\n %s\n %s\n %s\n %s)' % (
         chart_name, c_istate(case['pre']), c_world(case['wpre'], prop_chart_names), c_op(case['op']),
         clist(case['calls'], c_table_entry), c_outcome(case['out']), c_istate(case['post']),
         c_world(case['wpost'], prop_chart_names),
-        copt(case.get('selected'), lambda l: clist(l, cnat)))
+        copt(case.get('selected'), lambda l: clist(l, cnat)),
+        copt(case.get('seq'), lambda l: clist(l, lambda x: copt(x, c_meta))))
 
 
 CASE_HEADER = '''From Sismic Require Import Base Chart Interp World Corr.
